@@ -358,4 +358,10 @@ for pid, names in QUICK.items():
 
 
 def harnesses_for(prop, tier, seed=0):
-    return list(PROPS.get(prop, {}).get(tier, []))
+    names = list(PROPS.get(prop, {}).get(tier, []))
+    if tier == "quick" and prop == "C16":
+        # one Overlap-arm template (44 GB, ~6 min, runs practically alone) per quick run, rotated by VERIF_SEED
+        # over all 29 templates; seed 0 -> pi_ov_v6s (vertical, partial, second starts first)
+        rot = ["pi_ov_v6s", "pi_ov_f5s"] + [f"pi_ov_{n}" for n in OV_ALL if n not in ("v6s", "f5s")]
+        names = [n for n in names if not n.startswith("pi_ov_")] + [rot[seed % len(rot)]]
+    return names
